@@ -23,6 +23,12 @@ CHECKS = {
          "For every history and every delay of the handshake within the bound, every message sent to a connected but unauthorized client must be on an independent channel; convergence after authorization; mismatch handling.", "§5 C07"),
  "C08": ("stateless deviation-bounded exhaustive exploration of real Apps under both visibility policies; wire scan, visibility-query oracle and twin-execution differential",
          "All sequences of visibility calls, lifecycle operations and ticks within the bound are executed; every message is scanned for payloads of entities hidden from its recipient, is_visible is compared with the last call, and a second client is compared with a twin execution.", "§5 C08"),
+ "C09": ("stateless deviation-bounded exhaustive exploration of real Apps with disconnect / server-stop injection at every round (crash-point enumeration)",
+         "A client disconnect or server stop is injected at every round of every history within the bound, with traffic held in flight or buffered by earlier deviations; after reconnect the per-frame confirmed-tick oracle, the session-aware recipient oracle and convergence must hold and no panic may occur.", "§5 C09"),
+ "C13": ("exhaustive enumeration of operation sequences on one real App (all configurations, status-change points, emission points, event-rotation regimes)",
+         "Every sequence of <= r operations (server start/stop, client status changes, emissions in every mode) is executed on a real App in the full and the dedicated build; per event the number of local observations and wire sends must match the configuration, never twice.", "§5 C13"),
+ "C16": ("stateless deviation-bounded exhaustive exploration of real Apps with pre-spawn mapping operations; per-frame adoption oracle",
+         "All timings of the mapping relative to spawn, marker and visibility, with extra traffic, client-side despawn and a second client, under reliable-channel delays within the bound; one client entity per server entity and adoption are checked after every client frame.", "§5 C16"),
 }
 ALL = ["C%02d" % i for i in range(1, 19)]
 NOT_YET = "check not built yet in this session (work in progress; see DESIGN.md §5)"
